@@ -22,6 +22,7 @@ import Driver.CutCmd
 import Driver.BaseCmd
 import Driver.PersistCmd
 import Driver.FileNamesCmd
+import Driver.RoomCmd
 /-
 `raindrv`: one request per line on stdin, one answer per line on stdout.
 Unknown or malformed requests answer `bad-request` (never a default value).
@@ -57,6 +58,7 @@ def dispatch (toks : List String) : String :=
       else if cmd.startsWith "cut." then cutCmd toks
       else if cmd.startsWith "base." then baseCmd toks
       else if cmd.startsWith "fname." then fileNamesCmd toks
+      else if cmd.startsWith "room." then roomCmd toks
       else none
     match r with
     | some s => s
